@@ -356,7 +356,10 @@ def parse_expression(p: Parser) -> ExpressionAstNode:
 
 
 def parse_expression_ep(p: Parser) -> list[AstNode]:
-    return [parse_expression(p)]
+    expression = parse_expression(p)
+    # the text is one expression, whatever follows it is an error.
+    expect_token(p.current(), TokenType.EOF)
+    return [expression]
 
 
 def _parse_expression(p: Parser) -> list[ExprNode]:
